@@ -20,7 +20,7 @@ META = {
         "seeded random stacks (depth 0-6, any order) of PoolDecorator, Logger, Standardiser (random limits) and "
         "Buffer over a recording pool; 1-40 operations (demand write incl. repeated equal values, read, change "
         "of the pool's supply/utilisation/allocation - utilisation above and below allocation -, outside change "
-        "of the pool's demand); logger names incl. the default, the empty name (root logger) and other falsy-looking names, levels 1-50, default and custom templates; "
+        "of the pool's demand); logger names incl. the default, the empty name (root logger) and other falsy-looking names, levels 1-50, default and custom templates, name and level changed after construction (rename / relevel steps in the history); "
         "kind=template: message templates over known (value, demand, supply, utilisation, allocation, "
         "consumption, target) and unknown field names with several conversion types. "
         "Non-trivial = stack depth >= 2 or a template with >= 1 field; distinct by content."
@@ -79,8 +79,13 @@ def gen_case(rnd, spec):
             ops.append(["read"])
         elif k < 0.9:
             ops.append(["state", rnd.choice([0, 1, 10, rnd.randint(0, 100), rnd.random() * 50]), rnd.randint(0, 16) / 16, rnd.randint(0, 16) / 16])
-        else:
+        elif k < 0.95:
             ops.append(["outside", rnd.randint(0, 60)])
+        elif k < 0.98:
+            # a Logger is reconfigured after construction through its public attributes
+            ops.append(["rename", rnd.randint(0, 5), rnd.choice(["verif.c16.renamed", "verif.c16.a", None, "", "verif.c16.other.x"])])
+        else:
+            ops.append(["relevel", rnd.randint(0, 5), rnd.choice([10, 20, 30, 35, 50, 1])])
     return {"stack": stack, "ops": ops, "init": {"demand": rnd.randint(0, 30), "supply": rnd.randint(0, 30)}}
 
 
@@ -205,6 +210,25 @@ def execute(case, result):
                 pool.poke(supply=op[1], utilisation=op[2], allocation=op[3])
             elif op[0] == "outside":
                 pool.poke(demand=op[1])
+            elif op[0] in ("rename", "relevel"):
+                loggers = [layer for kind, _, layer in layers if kind == "Logger"]
+                if loggers:
+                    layer = loggers[op[1] % len(loggers)]
+                    if op[0] == "relevel":
+                        layer.level = op[2]
+                        result.count("loggers_releveled")
+                    else:
+                        layer.name = op[2]
+                        want = logging.getLogger(op[2] if op[2] is not None else type(layer.target).__qualname__)
+                        if layer.name != want.name:
+                            bad("after setting name to %r the Logger reports %r, expected %r" % (op[2], layer.name, want.name))
+                        if want not in hooked:
+                            saved.append((want, want.level, want.propagate))
+                            want.setLevel(1)
+                            want.propagate = False
+                            want.addHandler(capture)
+                            hooked.append(want)
+                        result.count("loggers_renamed")
             state = pool.peek()
             for attr in ("supply", "utilisation", "allocation"):
                 try:
@@ -311,7 +335,7 @@ def run_shard(spec):
 
 
 def finish(total, tier):
-    for name in ("writes_checked", "records_checked", "transparent_writes_checked", "reads_checked",
+    for name in ("writes_checked", "records_checked", "transparent_writes_checked", "reads_checked", "loggers_renamed", "loggers_releveled",
                  "states_utilisation_above_allocation", "templates_unknown_field", "templates_known_fields"):
         if not total.counters.get(name) and not total.violations:
             total.inconc("monitor never observed: " + name)
